@@ -275,3 +275,71 @@ func VerifC06Concurrent() {
 }
 
 var _ = wallet.Sig(nil)
+
+// VerifC06EarlyUpdate: the proposer's first update (version 1) reaches the
+// responder while the channel is still being opened there (k openings are
+// running); it is cached and handed to the handler when an opening finishes.
+// The request must be handled exactly once: a rejected update must not be
+// accepted later behind the proposer's back.
+func VerifC06EarlyUpdate() {
+	gen.K, gen.Exact = 1, true
+	w := cw.New()
+	ownIdx := rt.Choice(2)
+	params := w.Params(ownIdx, 7, channel.NoApp(), false)
+	init := &channel.State{ID: params.ID(), Version: 0, App: channel.NoApp(), Data: channel.NoData(),
+		Allocation: channel.Allocation{Assets: gen.Assets(1), Backends: gen.Backends(1), Balances: channel.Balances{gen.Bals(2)}}}
+	k := 1 + rt.Choice(2)
+	for i := 0; i < k; i++ {
+		w.Client.VerifEnableVer1Cache()
+	}
+	// the peer pays d with its first update
+	to := init.Clone()
+	to.Version = 1
+	d := gen.Bal()
+	peer := 1 - ownIdx
+	rt.Assume(to.Balances[0][peer].Cmp(d) >= 0)
+	to.Balances[0][peer] = new(big.Int).Sub(to.Balances[0][peer], d)
+	to.Balances[0][ownIdx] = new(big.Int).Add(to.Balances[0][ownIdx], d)
+	msg := &client.ChannelUpdateMsg{ChannelUpdate: client.ChannelUpdate{State: to, ActorIdx: channel.Index(peer)}, Sig: w.Sign(1, to)}
+	decisions := []bool{rt.NondetBool(), rt.NondetBool(), rt.NondetBool()}
+	invoked := 0
+	uh := client.UpdateHandlerFunc(func(_ *channel.State, _ client.ChannelUpdate, r *client.UpdateResponder) {
+		i := invoked
+		invoked++
+		ctx, cancel := context.WithTimeout(context.Background(), 1000000000)
+		defer cancel()
+		if i < len(decisions) && decisions[i] {
+			_ = r.Accept(ctx)
+		} else {
+			_ = r.Reject(ctx, "no")
+		}
+	})
+	go w.Client.VerifHandleChannelUpdate(uh, w.PeerWire, msg)
+	rt.Quiesce()
+	rt.Assert("c06.early.cached-not-handled", invoked == 0)
+	// the channel is created, then the openings finish one after the other
+	ch := w.Adopt(params, ownIdx, channel.Acting, init, nil)
+	for i := 0; i < k; i++ {
+		w.Client.VerifReleaseVer1Cache()
+		rt.Quiesce()
+	}
+	rt.Reach("c06.early")
+	acc, rej := 0, 0
+	for _, m := range w.Bus.Messages() {
+		switch m.(type) {
+		case *client.ChannelUpdateAccMsg:
+			acc++
+		case *client.ChannelUpdateRejMsg:
+			rej++
+		}
+	}
+	rt.Assert("c06.early.handled-once", invoked == 1)
+	rt.Assert("c06.early.one-response", acc+rej == 1)
+	tx, ph, free := view(ch)
+	rt.Assert("c06.early.ready", free && ph == channel.Acting)
+	if decisions[0] {
+		rt.Assert("c06.early.accepted", acc == 1 && tx.State.Version == 1 && tx.State.Equal(to) == nil)
+	} else {
+		rt.Assert("c06.early.rejected-stays-rejected", acc == 0 && tx.State.Version == 0 && tx.State.Equal(init) == nil)
+	}
+}
